@@ -209,6 +209,8 @@ def run_grid(ctx, desc, nontrivial):
         ds = ds.assign_coords(z_ou=("z_ou", np.array(thetas[0], float) * SC))
     g = Grid(ds, coords=gen.layout_coords(layout), periodic=False, autoparse_metadata=False)
     data = gen.quarter_data(desc["dseed"], (2, ncol, n))
+    if desc["dseed"] % 7 == 3:
+        data = np.round(data).astype("int64")  # an integer-typed extensive quantity (counts per cell)
     dims = ["e", "col", "z_ce"]
     perm = [dims[k] for k in np.random.default_rng(desc["order_seed"]).permutation(3)]
     da = xr.DataArray(data, dims=dims, name="phi").transpose(*perm)
@@ -234,7 +236,17 @@ def run_grid(ctx, desc, nontrivial):
     try:
         with dask.config.set(scheduler=desc["dask"] or "synchronous"):
             r = g.transform(da, "Z", target, method="conservative", **tdkw)
+            r_lazy = r
             r = r.compute()
+            if desc["dask"]:
+                # the lazy result announces the dtype it delivers: a lazy sum over the bins equals the sum of the computed bins
+                ctx.judged(("lazy-result-consistent", str(data.dtype)), True)
+                ls = r_lazy.sum(newdim if newdim in r_lazy.dims else r_lazy.dims[-1]).compute()
+                es = r.sum(newdim if newdim in r.dims else r.dims[-1])
+                if r_lazy.dtype != r.dtype or not np.array_equal(np.asarray(ls.values, float), np.asarray(es.values, float), equal_nan=True):
+                    ctx.violation("lazy-result-consistent", f"conservative transform of {data.dtype} data, dask-chunked: the lazy result announces {r_lazy.dtype} and computes "
+                                                            f"to {r.dtype}; lazy column sums {np.ravel(ls.values)[:4].tolist()} vs sums of the computed bins {np.ravel(es.values)[:4].tolist()}")
+                    return
             r_again = g.transform(da, "Z", target, method="conservative", **tdkw).compute()
     except Exception as ex:
         ctx.violation("transform-returns", f"Grid.transform(conservative, target_data on {'center' if on_center else 'outer'}, positions {pos}, dask={desc['dask']}) "
